@@ -380,6 +380,16 @@ def run_direct(case):
     if not ok:
         return res
     call, objs, trainees = built
+    # a second, independently created agent of the same kind: its components
+    # are bystanders of the first agent's update (no state shared through
+    # default arguments, class attributes or module-level caches)
+    ok, sib = guarded(res, f"C05/raises/build/{routine}", build, routine,
+                      np.random.default_rng(case["seed"] + 17), case.get("far", False))
+    if not ok:
+        return res
+    objs = dict(objs)
+    for n, o in sib[1].items():
+        objs["other_agent:" + n] = o
     before = {n: parts.digest(o) for n, o in objs.items()}
     ok, _ = guarded(res, f"C05/raises/{routine}", call)
     if not ok:
